@@ -610,7 +610,9 @@ def runMatch (op : String) (a : Json) : Except String Json := do
 
 def runPathSplit (a : Json) : Except String Json := do
   let dc := ((jS a "d").toList.head?).getD '/'
-  let r := if jS a "mode" == "split" then PathSplit.split dc (jS a "path") else PathSplit.smarter dc (jS a "path")
+  let r := if jS a "mode" == "split" then PathSplit.split dc (jS a "path")
+    else if jS a "mode" == "scan" then PathSplit.splitScan dc (jS a "path")
+    else PathSplit.smarter dc (jS a "path")
   return Json.mkObj [("ok", Json.arr (r.map Json.str).toArray)]
 
 def runRefVar (a : Json) : Except String Json := do
